@@ -110,6 +110,12 @@ func (p *inputPool) badText(r *prng.R) string {
 
 func (p *inputPool) badInput(r *prng.R, useTok bool) *harness.Input {
 	s := prng.Pick(r, p.valid)
+	if len(p.deep) > 0 && r.Chance(1, 3) {
+		// an error deep inside a long or deeply nested input (not the multi-thousand-token ones)
+		if d := prng.Pick(r, p.deep); len(d.Tokens) < 1500 {
+			s = d
+		}
+	}
 	toks := p.gr.Mutate(r, s.Tokens, 1+r.Intn(3))
 	txt, laid := p.gr.Layout(r, toks)
 	if !useTok && r.Chance(1, 3) {
